@@ -193,6 +193,17 @@ func (e *Executor) RunTask(ctx context.Context, call *Call) error {
 				}
 				return nil
 			}
+		} else if len(t.Sources) > 0 {
+			// A forced run does not consult the fingerprint, but it still has
+			// to record it, otherwise the next regular run would not know
+			// that the task just ran for these sources.
+			method := e.Taskfile.Method
+			if t.Method != "" {
+				method = t.Method
+			}
+			if checker, err := fingerprint.NewSourcesChecker(method, e.TempDir.Fingerprint, e.Dry); err == nil {
+				_, _ = checker.IsUpToDate(t)
+			}
 		}
 
 		for _, p := range t.Prompt {
